@@ -24,8 +24,10 @@ Step(X) == /\ StepAllowed(pos, X, cap)
 StepA == Step("A")
 StepB == Step("B")
 \* dropping both branches and splitting the fork again (by reference) changes nothing
-Resplit == /\ hist[1].cfg.variant = "ref" /\ Len(hist) <= SchedLen /\ NRes < MaxResplit
-           /\ hist' = Append(hist, [ev |-> "resplit", a |-> [x |-> 0]])
+\* (by reference again, or -- once -- by Rc, which consumes the fork: "re-split after earlier use")
+IsRc == \E i \in 1..Len(hist) : hist[i].ev = "resplit" /\ hist[i].a.to = "rc"
+Resplit == /\ hist[1].cfg.variant = "ref" /\ Len(hist) <= SchedLen /\ NRes < MaxResplit /\ ~IsRc
+           /\ \E to \in {"ref", "rc"} : hist' = Append(hist, [ev |-> "resplit", a |-> [to |-> to]])
            /\ last' = [branch |-> "none", frame |-> 0]
            /\ UNCHANGED << st, pos, cap >>
 Next == StepA \/ StepB \/ Resplit
